@@ -26,6 +26,10 @@ Subset and semantics (the translator's assumptions, i.e. the trusted part):
     `u ** 2` is `u * u`; `np.sqrt`, `np.log` elementwise; `np.hstack((u, v))` is `u ++ v`; an elementwise operation on TWO
     arrays pairs their entries up to the shorter one (`g_map2`): equal lengths are assumed -- in the translated code both
     operands are histograms over the same bins (NumPy would raise, or broadcast a length-1 array, otherwise);
+  * `X[k]` for a constant k >= 0 on a float array is `nth k X 0`: the index is ASSUMED in range (the arrays indexed are
+    draws of a stated constant size); oracles declared `stateful` (NumPy's global generator) get the index of their call
+    site as an extra argument, so two call sites are never assumed to return equal values -- a site is evaluated at most
+    once per call of the function (no loops in the subset);
   * `X[X == 0.0] = c` replaces the entries equal to 0.0 by c; `sys.float_info.min` is 2^-1022 (written as a quotient of
     integers); `X.shape[0]` is the length of a 1-D array;
   * library calls listed in `FN_ORACLES` are UNINTERPRETED functions (section parameters of GFn.v): the theorems hold
@@ -90,6 +94,7 @@ Definition g_fold_max (l : list (num A)) : num A := match l with [] => ofZ 0 | x
 class Fn:
     def __init__(self, tr, unit, fn):
         self.tr, self.unit, self.fn = tr, unit, fn
+        self.site = 0
 
     # ------------------------------------------------------------------ expressions
     def coerce(self, e, t, want):
@@ -195,6 +200,8 @@ class Fn:
                 if not (isinstance(b[1], tuple) and b[1][0] == "vec"):
                     raise Unsupported(f"shape of {b[1]}")
                 return f"(g_len {b[0]})", INT
+            if base and base[1] == vec(NUM) and isinstance(n.slice, ast.Constant) and isinstance(n.slice.value, int) and n.slice.value >= 0:
+                return f"(nth {n.slice.value} {base[0]} (@ofZ A 0%Z))", NUM
             if base and isinstance(base[1], tuple) and base[1][0] == "tuple" and isinstance(n.slice, ast.Constant) and isinstance(n.slice.value, int):
                 k, ts = n.slice.value, base[1][1]
                 if len(ts) == 2 and k in (0, 1):
@@ -251,6 +258,12 @@ class Fn:
                     b = self.ev(lam.body, env2)
                     args.append(f"(fun {' '.join(ps)} => {self.coerce(b[0], b[1], pt[2])})")
                     continue
+                if pt == "shape1":
+                    g = given[nm]
+                    if not (isinstance(g, ast.Tuple) and len(g.elts) == 1 and isinstance(g.elts[0], ast.Constant) and isinstance(g.elts[0].value, int)):
+                        raise Unsupported(f"oracle {f}: {nm} must be a constant 1-D shape")
+                    args.append(zlit(g.elts[0].value))
+                    continue
                 e, t = self.ev(given[nm], env)
                 if o.get("lift_last") and i == len(names) - 1 and isv(t) and t[1] in (NUM, INT) and pt == NUM:
                     lifted = (e, t)
@@ -264,6 +277,11 @@ class Fn:
                 args.append(self.coerce(e, t, pt))
             self.tr.used_oracles[o["coq"]] = o["ty"]
             head = o["coq"] + (" T" if o.get("poly") else "")
+            if o.get("stateful"):
+                # a call that consumes hidden state (NumPy's global generator): every call SITE of the function gets its own
+                # index, so that two sites are never assumed to return the same value
+                head += f" {zlit(self.site)}"
+                self.site += 1
             app = f"({head} {' '.join(args)})"
             if lifted:
                 return f"(map (fun x_ => {app}) {lifted[0]})", vec(o["ret"])
